@@ -101,6 +101,11 @@ def interleaved(ctx):
                 if snap[0] in ("ERROR_PING_MISSED", "ERROR_RF_FAULT", "ERROR_NEEDS_ATTENTION") and snap[2] and not occ[2]:
                     ctx.fail("lifecycle:reset_abandoned", "the reset started by a ping answered in %s was abandoned: its task is gone, the manager is still in %s with the spa in place" % (snap[0], snap[0]),
                              {"configured": configured, "schedule": hist})
+            # the pump has polled (three times during the settle), nobody is inside the manager: IDLE with descriptors in place is a state no
+            # branch of the pump leaves (theorem no_stuck_idle says no schedule reaches it)
+            if _ and _[-1] is True:
+                ctx.fail("lifecycle:stuck_idle_with_descriptors", "the manager sits in IDLE with descriptors in place, nobody is inside it and the pump polls without doing anything (stuck until the next reset): "
+                         "after %r, step %d of an interleaved schedule" % (l, j + 1), {"configured": configured, "schedule": hist})
             prev_state = snap[0]
             # a user reset / set-spa-info that has just returned: IDLE with no facade, spa or descriptors?
             if prev_occ[2] and not occ[2] and l == ("Resume", "U") and (snap[1] or snap[2] or snap[3]):
